@@ -39,6 +39,7 @@ type writeSet struct {
 	prefixes []string          // coarse frames of callees
 	full     bool
 	why      string
+	noAlloc  bool // do not count the initialisation of freshly allocated objects (call-site frames)
 }
 
 func (w *writeSet) add(name, sort string) { w.comps[name] = sort }
@@ -52,12 +53,18 @@ func (e *Enc) staticWrites(fn *ssa.Function, blocks map[*ssa.BasicBlock]bool, w 
 		for _, in := range b.Instrs {
 			switch in := in.(type) {
 			case *ssa.Store:
+				if w.noAlloc && freshBase(in.Addr) {
+					break // initialisation of an object allocated by this very function
+				}
 				e.addrComps(in.Addr, w)
 			case *ssa.MapUpdate:
 				md, mv := e.mapComps(in.Map.Type().Underlying().(*types.Map))
 				w.add(md, e.comps[md])
 				w.add(mv, e.comps[mv])
 			case *ssa.Alloc:
+				if w.noAlloc {
+					break
+				}
 				elem := in.Type().(*types.Pointer).Elem()
 				if privateAlloc(in) {
 					w.add(localComp("", in), e.sortOf(elem))
@@ -65,18 +72,40 @@ func (e *Enc) staticWrites(fn *ssa.Function, blocks map[*ssa.BasicBlock]bool, w 
 					e.wholeComps(elem, w)
 				}
 			case *ssa.MakeSlice:
+				if w.noAlloc {
+					break
+				}
 				el := in.Type().Underlying().(*types.Slice).Elem()
 				w.add(elemCompName(e, el), e.elemSort(el))
 			case *ssa.MakeMap:
+				if w.noAlloc {
+					break
+				}
 				md, _ := e.mapComps(in.Type().Underlying().(*types.Map))
 				w.add(md, e.comps[md])
+			case *ssa.Defer:
+				if w.noAlloc {
+					// call-site frame: the deferred call runs inside the callee; count what it writes
+					e.callWrites(fn, &in.Call, in, w, depth, seen)
+					break
+				}
+				w.full = true
+				w.why = "defer"
+			case *ssa.RunDefers:
+				if !w.noAlloc {
+					w.full = true
+					w.why = "rundefers"
+				}
 			case *ssa.Next:
+				if w.noAlloc {
+					break
+				}
 				if rng, ok := in.Iter.(*ssa.Range); ok && !in.IsString {
 					mt := rng.X.Type().Underlying().(*types.Map)
 					w.add("GHseen_"+sanitize(rng.Name()), fmt.Sprintf("(Array %s Bool)", e.sortOf(mt.Key())))
 					w.add("GHseen_n_"+sanitize(rng.Name()), e.idxSort())
 				}
-			case *ssa.Go, *ssa.Send, *ssa.Select, *ssa.Defer, *ssa.RunDefers:
+			case *ssa.Go, *ssa.Send, *ssa.Select:
 				w.full = true
 				w.why = fmt.Sprintf("%T", in)
 			case *ssa.UnOp:
@@ -730,4 +759,33 @@ func (e *Enc) frameFact(comp string, a, b *State, excl []string) string {
 		conds = append(conds, fmt.Sprintf("(not (= |q.r| %s))", x))
 	}
 	return fmt.Sprintf("(forall ((|q.r| Int)) (=> (and %s) (= (select %s |q.r|) (select %s |q.r|))))", strings.Join(conds, " "), tb, ta)
+}
+
+// freshBase: the address is a field / element of an object allocated in the same function (directly, not
+// through a loaded pointer).
+func freshBase(v ssa.Value) bool {
+	for i := 0; i < 16; i++ {
+		switch x := v.(type) {
+		case *ssa.Alloc:
+			return true
+		case *ssa.FieldAddr:
+			v = x.X
+		case *ssa.IndexAddr:
+			if _, isSlice := x.X.Type().Underlying().(*types.Slice); isSlice {
+				if ms, ok := x.X.(*ssa.MakeSlice); ok {
+					_ = ms
+					return true
+				}
+				if sl, ok := x.X.(*ssa.Slice); ok {
+					v = sl.X
+					continue
+				}
+				return false
+			}
+			v = x.X
+		default:
+			return false
+		}
+	}
+	return false
 }
